@@ -16,6 +16,7 @@ PARTIAL = [
     "knot range: proved for curve / surface / volume POINT evaluation, for curve and surface DERIVATIVES (chain-rule factors a^-k, a1^-k*a2^-l; basis tables, A2.3 as coded, rational A4.2 / A4.4; knotvector.normalize: factor (last-first)^k), for knot insertion / removal / refinement at helper level and for one direction of insert_knot / remove_knot / refine_knotvector, for split (identical pieces), and NOW ALSO for the whole calls: insertKnot / removeKnot / refineKnotvector (the folds over the directions, any subset requested, completed / raised flag included) on the shape with EVERY knot vector mapped by its own x -> a_d*x + b_d (Shape.affineKvs; hypotheses only for the requested directions: a_d > 0, non-empty knot vector, and either tol' = a_d*tol for each of them - one common factor or tol = 0, since the call has ONE tolerance - or, for insert / remove, the same tolerance with the separation hypothesis per requested direction and arbitrary per-direction factors), split of a shape mapped in all directions (pieces identical: every direction is normalised), decomposeDirE and decomposeUVE - the decomposition WITH the exceptions of the code, what the driver op decomp runs - (same tolerance, separation hypothesis for the FIRST interior knot of the direction only; conclusion: both sides answer the same - both raise (a rejected first split, e.g. an end knot repeated p+2 times, is an exception on both ranges: decompose_rejected_first_split_raises_on_both_ranges) or both return the identical list of pieces -, or nothing is split on either side because there is no fuel / no interior knot and each returns its own un-normalised object; *_when_split: same answer as soon as there is an interior knot, for decomposeUVE then without any hypothesis about the v range; *_when_split_pieces: when the code does not raise the common answer is the list of the plain model decomposeDir). NOT theorems: volume derivatives (library stub); a scaled-tolerance form of decompose_* (false in general: after the first split both sides continue on the identical normalised piece, so the tolerances must agree); per-direction different factors with a scaled tolerance in ONE insert_knot / remove_knot / refine_knotvector call (the call has one tolerance; tol' = a_d*tol must hold for every requested direction); and the fixed tolerance of the code in REFINEMENT: the refinement theorems (helper, one direction, whole call) scale find_multiplicity's tolerance with the knot range (a*tol), i.e. they assume no knot distance falls between tol and a*tol (insert_knot / remove_knot / split / decompose have same-tolerance versions under the explicit hypothesis that every knot equals the parameter or is further than tol away in both ranges). The real operations are additionally run on both knot ranges by the oracle stream knot-range-ops (insert, insert+remove, refine on any subset of directions of curves / surfaces / volumes, decompose_curve / decompose_surface u / v / uv; exact arithmetic, no model involved)",
     "evaluator family: the evaluators AS CODED agree - CurveEvaluator (curveDersA32, A3.2 over A2.3) = CurveEvaluator2 (curveDersAt, A3.3/A3.4) in every entry k <= order (curve_evaluators_as_coded_agree), SurfaceEvaluator2 (surfaceDersA38, A3.7 + A3.8) = SurfaceEvaluator (surfaceDersA36, A3.6) in every entry with k + l <= order (surface_evaluators_as_coded_agree; the other entries of A3.8 stay zero) - on non-empty spans of sorted knot vectors inside the net (both sides equal the true derivative, C02); chain rule under an affine knot map also for the DEFAULT evaluators as coded through the span search on the closed domain (default_curve_derivatives_affine_knots, default_surface_derivatives_affine_knots); the theorems about curveDers / surfaceDersAt are about the A3.3/A3.4 evaluator resp. the tensor model, NOT about the default evaluator (their docs say so)",
     "span search option: termination / legal span index of find_span_binsearch on the whole domain is a theorem without the F-17b hypothesis, for tolerances 0 < tol < 1/2 only (the model's start index (p+n+1)/2 is the code's int(round((low+high)/2 + tol)) only there; with tol = 9 the real code raises IndexError; the driver runs the shipped tolerance 10e-6); equality with the linear search still needs the F-17b hypothesis (recorded finding)",
+    "evaluation with find_span_binsearch selected: curve / rational curve / surface / volume points and curve derivatives (both evaluators as coded) on the span the binary search returns are the Cox-de Boor sums / true derivatives on the whole closed domain (*_binsearch_selected, binsearch_span_found, binsearch_selected_any_span_function) under BinTolOk (0 < tol < 1/2 and the F-17b separation hypothesis, per direction; implied for every parameter by 'last span longer than the tolerance'); without it the evaluated point differs (curve_eval_binsearch_refuted_F17b). Surface derivatives / rational surfaces and volumes with the binary search follow from the span equality only (no separate statement)",
 ]
 TRUSTED = ["CPython functools.lru_cache implements the LRU contract", "multiprocessing.Pool.map preserves order"]
 OPS = {'curve': 'ceval', 'surface': 'seval', 'volume': 'veval'}
